@@ -23,6 +23,9 @@ NARROW = {
 }
 
 
+HUB_FUNCS = ("SelectHub._select", "SelectHub.registerSelect", "SelectHub._return", "SelectHub._threadProc")
+
+
 class FakeOS (object):
   """Stands in for the `os` module inside pox.lib.util so that the REAL pinger code (PipePinger over os.pipe /
   os.write / os.read) runs on modelled pipes: write makes the read end readable, read blocks on an empty pipe."""
@@ -61,18 +64,109 @@ class FakeOS (object):
     return getattr(_os, n)
 
 
-def setup (ctx, threaded, funcs, pending, opcode=False, rotate=False, max_points=6000, real_pinger=False, via_core=False):
+# ---- scheduling points below the line: reads and writes of the shared objects' fields ---------------------------
+# Per-instruction tracing of several threads is not reliable on this interpreter (see configs()), and it is not needed:
+# between two accesses to shared state a thread only computes on its own locals, so switching threads there shows
+# nothing that switching at the accesses does not.  Inside the functions named in `fields' every read and every write of
+# an instance attribute of the scheduler, its select hub, the call-later task and the schedule tasks is a scheduling point
+# of its own - once before the access and (reads) once after it, i.e. between fetching `self._calls' and calling
+# `.append' on what was fetched, or between two reads of `self._callLaterTask' in one statement.
+FIELD_CLASSES = ("Scheduler", "CallLaterTask", "SelectHub", "ScheduleTask", "SyncTask")
+FIELDS = {
+  "calllater": ("Scheduler.callLater", "CallLaterTask.callLater", "CallLaterTask.run"),
+  "wake": ("Scheduler.schedule", "ScheduleTask.run", "Scheduler.fast_schedule"),
+  "sync": ("Synchronizer.__enter__", "Synchronizer.__exit__", "SyncTask.run", "Scheduler.synchronized"),
+  "idle": ("Scheduler.fast_schedule", "SelectHub.idle", "SelectHub.break_idle", "Scheduler.run"),
+}
+
+
+def field_points (R, S, funcs):
+  for cn in FIELD_CLASSES:
+    cls = getattr(R, cn)
+    for n in ("__getattribute__", "__setattr__"):
+      if getattr(cls.__dict__.get(n), "_c07", False): delattr(cls, n)
+  if not funcs: return
+  funcs = frozenset(funcs)
+  getframe = sys._getframe
+  oget = object.__getattribute__; oset = object.__setattr__
+  def make (cn):
+    def ga (self, name):
+      co = getframe(1).f_code
+      if co.co_qualname in funcs and name in oget(self, "__dict__") and co.co_filename.endswith("recoco/recoco.py"):
+        S.point("read %s.%s" % (cn, name))
+        v = oget(self, name)
+        S.point("have %s.%s" % (cn, name))
+        return v
+      return oget(self, name)
+    def sa (self, name, value):
+      co = getframe(1).f_code
+      if co.co_qualname in funcs and co.co_filename.endswith("recoco/recoco.py"):
+        S.point("write %s.%s" % (cn, name))
+      oset(self, name, value)
+    ga._c07 = sa._c07 = True
+    return ga, sa
+  for cn in FIELD_CLASSES:
+    cls = getattr(R, cn)
+    cls.__getattribute__, cls.__setattr__ = make(cn)
+
+
+# ---- the epoll back-end: the library's EpollSelect class over a modelled select.epoll object ---------------------
+class CEpoll (object):
+  """select.epoll stand-in (level-triggered): register / modify / unregister keep the interest set and fail the way
+  the kernel does (EEXIST, ENOENT); poll() reports the registered descriptors that are readable, or blocks."""
+  def __init__ (self, S, readable, consts):
+    self.S = S; self.readable = readable; self.reg = {}; self.c = consts
+  def register (self, fd, eventmask=None):
+    if not isinstance(fd, int): fd = fd.fileno()
+    if fd in self.reg: raise FileExistsError(17, "File exists")
+    self.reg[fd] = self.c.EPOLLIN | self.c.EPOLLPRI | self.c.EPOLLOUT if eventmask is None else eventmask
+  def modify (self, fd, eventmask):
+    if not isinstance(fd, int): fd = fd.fileno()
+    if fd not in self.reg: raise FileNotFoundError(2, "No such file or directory")
+    self.reg[fd] = eventmask
+  def unregister (self, fd):
+    if not isinstance(fd, int): fd = fd.fileno()
+    if fd not in self.reg: raise FileNotFoundError(2, "No such file or directory")
+    del self.reg[fd]
+  def _ready (self):
+    return [(fd, self.c.EPOLLIN) for fd, m in self.reg.items() if m & (self.c.EPOLLIN | self.c.EPOLLPRI) and self.readable(fd)]
+  def poll (self, timeout=None, maxevents=-1):
+    from mc import thr
+    S = self.S
+    S.point("epoll.poll")
+    ev = self._ready()
+    if ev or timeout == 0: return ev
+    if timeout is not None and timeout < 0: timeout = None
+    dl = None if timeout is None else S.now + timeout
+    S.block(lambda: bool(self._ready()), deadline=dl, poll=(timeout is not None and timeout >= thr.POLL), what="epoll.poll")
+    return self._ready()
+  def close (self): pass
+  def fileno (self): return -2
+
+
+class EpollModule (object):
+  """Stands in for the `select` module inside pox.lib.epoll_select."""
+  def __init__ (self, mk):
+    import select as _select
+    self._real = _select; self._mk = mk
+  def epoll (self, *a, **k): return self._mk(self._real)
+  def __getattr__ (self, n): return getattr(self._real, n)
+
+
+def setup (ctx, threaded, funcs, pending, opcode=False, rotate=False, max_points=6000, real_pinger=False, via_core=False,
+           fields=(), epoll=False, nondefault=False):
   from mc.env import boot
   boot()
   from mc import thr
-  import pox.lib.recoco.recoco as R, pox.lib.util as U
+  import pox.lib.recoco.recoco as R, pox.lib.util as U, pox.lib.epoll_select as E
   S = thr.Sched(ctx, trace_files=("recoco/recoco.py",), trace_funcs=funcs,
                 opcode_funcs=(funcs or ()) if opcode else (), pending=pending, max_points=max_points)
-  S.rotate = rotate
+  S.rotate = rotate is True; S.reverse = rotate == "reverse"
   T = thr.CThreadingModule(S)
   R.threading = T; R.Thread = T.Thread; R.Queue = lambda: thr.CQueue(S)
   R.time = thr.CTime(S); R.CYCLE_MAXIMUM = 1e9
-  import os as _realos
+  field_points(R, S, fields)
+  import os as _realos, select as _realselect
   if real_pinger:
     # the library's own pinger (pox.lib.util.make_pinger -> PipePinger) on modelled pipes
     fos = FakeOS(S)
@@ -83,27 +177,51 @@ def setup (ctx, threaded, funcs, pending, opcode=False, rotate=False, max_points
         ro = [o for o in r if (getattr(o, "readable", None) or (lambda: fos.readable(o.fileno() if hasattr(o, "fileno") else o)))()]
         return ro, [], []
     R.select = PipeSelect(S)
+    readable_fd = fos.readable
   else:
     U.os = _realos
     R.select = thr.CSelect(S)
-    U.makePinger = lambda: thr.CPinger(S)
+    # (the counting pingers get a descriptor number each: the epoll back-end tells its objects apart by fileno())
+    fdtab = {}
+    class NPinger (thr.CPinger):
+      def __init__ (self_, S_):
+        thr.CPinger.__init__(self_, S_)
+        self_.fd = 500 + len(fdtab); fdtab[self_.fd] = self_
+      def fileno (self_): return self_.fd
+    U.makePinger = lambda: NPinger(S)
+    readable_fd = lambda fd: fd in fdtab and fdtab[fd].readable()
+  # the other back-end of the select hub: the REAL pox.lib.epoll_select.EpollSelect, its epoll object modelled
+  E.select = EpollModule(lambda consts: CEpoll(S, readable_fd, consts)) if epoll else _realselect
   R.Scheduler.runThreaded = R.Scheduler._orig_runThreaded
+  other = None
+  if nondefault:
+    import types
+    R.print = lambda *a, **k: None        # (the scheduler prints a traceback for every task that dies)
+    R.traceback = types.SimpleNamespace(print_exc=lambda *a, **k: None, format_exc=lambda *a, **k: "")
+    # the scheduler under test is not the process-wide default one: another (running) scheduler is
+    other = R.Scheduler(isDefaultScheduler=True, startInThread=True, threaded_selecthub=False)
   if via_core:
     # the scheduler made the way a running POX makes it: by POXCore's constructor (whose `import threading` is
     # answered with the controlled module, so whatever thread it starts is under the explorer's control)
-    import sys, io, contextlib, pox.core as PC
+    import io, contextlib, pox.core as PC
     real = sys.modules["threading"]
     sys.modules["threading"] = T
     try:
       with contextlib.redirect_stdout(io.StringIO()):
-        c = PC.POXCore(threaded_selecthub=threaded, handle_signals=False)
+        c = PC.POXCore(threaded_selecthub=threaded, epoll_selecthub=bool(epoll), handle_signals=False)
     finally:
       sys.modules["threading"] = real
     sch = c.scheduler
   else:
-    sch = R.Scheduler(isDefaultScheduler=True, startInThread=True, threaded_selecthub=threaded)
-  R.defaultScheduler = sch
+    sch = R.Scheduler(isDefaultScheduler=not nondefault, startInThread=True, threaded_selecthub=threaded, use_epoll=bool(epoll))
+  R.defaultScheduler = other if nondefault else sch
   return S, R, sch
+
+
+def kw (p):
+  """the configuration's set-up options"""
+  return dict(opcode=p.get("opcode"), rotate=p.get("rotate"), real_pinger=p.get("real_pinger", False), fields=p.get("fields") or (),
+              epoll=p.get("epoll", False), nondefault=p.get("nondefault", False))
 
 
 def finish (S, first=0):
@@ -118,8 +236,7 @@ def s_calllater (ctx, p):
   ran = []
   nthreads, ncalls = p.get("threads", 2), p.get("calls", 2)
   total = nthreads * ncalls
-  S, R, sch = setup(ctx, p["threaded"], p["funcs"], lambda: len(set(ran_tags(ran))) < total, p.get("opcode"), p.get("rotate"), real_pinger=p.get("real_pinger", False),
-                    max_points=p.get("max_points", 6000))
+  S, R, sch = setup(ctx, p["threaded"], p["funcs"], lambda: len(set(ran_tags(ran))) < total, max_points=p.get("max_points", 6000), **kw(p))
   raiser = p.get("raiser")
   if raiser:
     import logging
@@ -129,9 +246,29 @@ def s_calllater (ctx, p):
     # a handed-over function that fails (ordinary exception, or a BaseException such as SystemExit) must not
     # strand the functions queued behind it
     if raiser and tag == (0, 0): raise (SystemExit(3) if raiser == "sysexit" else ValueError("boom"))
+  # other users of the select hub next to the call-later task: a cooperative task that waits for input on a descriptor
+  # of its own (select: input never comes; io: a foreign thread makes it readable before each of its hand-overs, the
+  # task takes it and waits again) or sleeps on a timer - their registrations and wake-ups pass through the same hub,
+  # on the same queue and wake-up pinger, as the call-later task's
+  cot = p.get("cotask")
+  if cot:
+    import pox.lib.util as U
+    xp = U.makePinger()
+    class Co (R.BaseTask):
+      def run (self):
+        if cot == "sleep":
+          yield R.Sleep(5)
+        else:
+          for _ in range(1 if cot == "select" else ncalls + 1):
+            yield R.Select([xp], None, None)
+            xp.pongAll()
+        yield False
+    Co().start(sch, fast=True)
   def foreign (i):
     def body ():
-      for j in range(ncalls): sch.callLater(f, (i, j))
+      for j in range(ncalls):
+        if cot == "io" and i == 0: xp.ping()
+        sch.callLater(f, (i, j))
     return body
   for i in range(nthreads): S.spawn(foreign(i), name="F%d" % i)
   v = finish(S)
@@ -152,7 +289,7 @@ def ran_tags (ran): return [t for t, _ in ran]
 def s_wake (ctx, p):
   st = dict(last_wake=-1, last_step=-2, steps=0, maxq=0, clock=0)
   def tick (): st["clock"] += 1; return st["clock"]
-  S, R, sch = setup(ctx, p["threaded"], p["funcs"], lambda: st["last_wake"] > st["last_step"], p.get("opcode"), p.get("rotate"), real_pinger=p.get("real_pinger", False))
+  S, R, sch = setup(ctx, p["threaded"], p["funcs"], lambda: st["last_wake"] > st["last_step"], **kw(p))
   class T (R.BaseTask):
     def run (self):
       for _ in range(p.get("reyield", 0)):
@@ -187,8 +324,7 @@ def s_wake (ctx, p):
 # ---- S3: synchronized() ----------------------------------------------------------------
 def s_sync (ctx, p):
   st = dict(inside=0, bad=None, fdone=False, steps=0, fleft=p.get("threads", 1))
-  S, R, sch = setup(ctx, p["threaded"], p["funcs"], lambda: not st["fdone"], p.get("opcode"), p.get("rotate"), real_pinger=p.get("real_pinger", False),
-                    via_core=p.get("via_core", False))
+  S, R, sch = setup(ctx, p["threaded"], p["funcs"], lambda: not st["fdone"], via_core=p.get("via_core", False), **kw(p))
   class Worker (R.BaseTask):
     def run (self):
       for i in range(3):
@@ -218,7 +354,7 @@ def s_sync (ctx, p):
 # ---- S4: idle / wake-up handshake ----------------------------------------------------
 def s_idle (ctx, p):
   st = dict(ran=0, want=0)
-  S, R, sch = setup(ctx, p["threaded"], p["funcs"], lambda: st["ran"] < st["want"], p.get("opcode"), p.get("rotate"), real_pinger=p.get("real_pinger", False))
+  S, R, sch = setup(ctx, p["threaded"], p["funcs"], lambda: st["ran"] < st["want"], **kw(p))
   class One (R.BaseTask):
     def run (self):
       st["ran"] += 1
@@ -317,12 +453,32 @@ class SeqSelect (object):
     return ro, [], []
 
 
+class SeqEpoll (object):
+  """select.epoll stand-in for the hand-stepped scheduler (the same interest-set model as CEpoll)."""
+  def __init__ (self, fos, consts): self.fos = fos; self.c = consts; self.reg = {}
+  def register (self, fd, eventmask=None):
+    if fd in self.reg: raise FileExistsError(17, "File exists")
+    self.reg[fd] = self.c.EPOLLIN | self.c.EPOLLPRI | self.c.EPOLLOUT if eventmask is None else eventmask
+  def modify (self, fd, eventmask):
+    if fd not in self.reg: raise FileNotFoundError(2, "No such file or directory")
+    self.reg[fd] = eventmask
+  def unregister (self, fd):
+    if fd not in self.reg: raise FileNotFoundError(2, "No such file or directory")
+    del self.reg[fd]
+  def poll (self, timeout=None, maxevents=-1):
+    ev = [(fd, self.c.EPOLLIN) for fd, m in self.reg.items() if m & (self.c.EPOLLIN | self.c.EPOLLPRI) and self.fos.readable(fd)]
+    if not ev: raise Quiescent()
+    return ev
+  def close (self): pass
+
+
 def pile_lattice (top):
   return sorted(set([1, 2, 3] + [2 ** k + d for k in range(2, 17) for d in (-1, 0, 1) if 2 ** k + d <= top]))
 
 
-def s_pile (plan):
-  """plan: [(source, n, gap)...] - `source' hands over n pieces of work, then the scheduler makes `gap' steps (None:
+def s_pile (plan, epoll=False):
+  """epoll: the select hub uses the library's EpollSelect (on a modelled epoll object) instead of select.select.
+  plan: [(source, n, gap)...] - `source' hands over n pieces of work, then the scheduler makes `gap' steps (None:
   runs until it would sleep) before the next burst; after the last one it runs until it would sleep.
   Sources of call-later functions: thread = a foreign thread (started and joined while the scheduler stands still);
   task = a cooperative task in one slice; nested = a handed-over function (handed over by a foreign thread) from inside
@@ -331,15 +487,18 @@ def s_pile (plan):
   import threading, queue, types
   from mc.env import boot, VClock
   boot()
-  import pox.lib.recoco.recoco as R, pox.lib.util as U
+  import pox.lib.recoco.recoco as R, pox.lib.util as U, pox.lib.epoll_select as E
+  import select as _realselect
   fos = SeqPipes()
+  field_points(R, None, ())
+  E.select = EpollModule(lambda consts: SeqEpoll(fos, consts)) if epoll else _realselect
   R.threading = threading; R.Thread = threading.Thread; R.Queue = queue.Queue; R.time = VClock()
   R.print = lambda *a, **k: None
   R.traceback = types.SimpleNamespace(print_exc=lambda *a, **k: None, format_exc=lambda *a, **k: "")
   U.os = fos; U.makePinger = U.make_pinger
   R.select = SeqSelect(fos)
   try:
-    sch = R.Scheduler(isDefaultScheduler=True, startInThread=False, threaded_selecthub=False)
+    sch = R.Scheduler(isDefaultScheduler=True, startInThread=False, threaded_selecthub=False, use_epoll=bool(epoll))
     R.defaultScheduler = sch
     me = threading.current_thread()
     sch._thread = me                      # the thread that steps the scheduler is the scheduler thread
@@ -432,6 +591,7 @@ def s_pile (plan):
   finally:
     import os as _realos
     U.os = _realos
+    E.select = _realselect
 
 
 def pile_plans (quick):
@@ -464,27 +624,39 @@ def pile_plans (quick):
       for g1 in (0, 2, 4, 5, None):
         for g2 in (0, 2, 4, 5, None):
           ps.append((("thread", a, g1), ("thread", b, g2), ("thread", c, None)))
+  ps = [(p, False) for p in ps]
+  # the same on the epoll back-end (the library's EpollSelect keeps its interest set between calls: what matters is the
+  # sequence of descriptor sets it is shown, i.e. sources and phases rather than sizes)
+  esizes = (1, 2, 1023, 1024, 1025, 4097) if quick else pile_lattice(4097)
+  for src in srcs + ("start", "wake"):
+    for n in esizes:
+      ps.append((((src, n, None),), True))
+  for sa, sb in (pairs if quick else tuple(itertools.product(srcs + ("start", "wake"), repeat=2))):
+    for a, b in ((1, 1), (1, 1025), (1025, 1)):
+      for g in ((0, 2, 4, 6, None) if quick else gaps):
+        ps.append((((sa, a, g), (sb, b, None)), True))
   return ps
 
 
-def pile_name (plan):
-  return "pile/inline-hub/real-pinger/" + "+".join(s for s, _, _ in plan)
+def pile_name (plan, epoll=False):
+  return "pile/inline-hub/real-pinger/" + ("epoll/" if epoll else "") + "+".join(s for s, _, _ in plan)
 
 
 def _pile_worker (plans):
   rep = Report(PID, "model_checking")
-  for plan in plans:
-    bad, obs = s_pile(plan)
+  for plan, epoll in plans:
+    bad, obs = s_pile(plan, epoll)
     rep.evaluations += 1
     rep.transitions += sum(n for _, n, _ in plan)
-    kk = "execs:" + pile_name(plan)
+    kk = "execs:" + pile_name(plan, epoll)
     rep.extra[kk] = rep.extra.get(kk, 0) + 1
-    rep.outcome(("pile", plan, bad and bad[0], obs))
+    rep.outcome(("pile", plan, epoll, bad and bad[0], obs))
     if bad:
-      rep.violation("%s:%s:inline-hub" % (PID, bad[0]), "%s [piles (source, functions, scheduler steps before the next): %r]" % (bad[1], plan),
-                    dict(pile=True, plan=[list(b) for b in plan]))
+      rep.violation("%s:%s:inline-hub%s" % (PID, bad[0], ":epoll" if epoll else ""),
+                    "%s [%spiles (source, functions, scheduler steps before the next): %r]" % (bad[1], "epoll back-end; " if epoll else "", plan),
+                    dict(pile=True, plan=[list(b) for b in plan], epoll=epoll))
     if len(plan) == 1 and plan[0][1] == 1025:
-      rep.sample(dict(scenario=pile_name(plan), plan=plan, verdict=bad and bad[0], functions_run=obs[0], pipe_reads=obs[1]))
+      rep.sample(dict(scenario=pile_name(plan, epoll), plan=plan, verdict=bad and bad[0], functions_run=obs[0], pipe_reads=obs[1]))
   rep.state_count = rep.evaluations
   return rep
 
@@ -494,9 +666,9 @@ def run_piles (cfg):
   ps = pile_plans(cfg.quick)
   if cfg.only and "pile" not in cfg.only: return rep
   # balance: the big piles first, each its own item
-  ps.sort(key=lambda p: -sum(n for _, n, _ in p))
-  big = [[p] for p in ps if sum(n for _, n, _ in p) >= 8192]
-  small = [p for p in ps if sum(n for _, n, _ in p) < 8192]
+  ps.sort(key=lambda p: -sum(n for _, n, _ in p[0]))
+  big = [[p] for p in ps if sum(n for _, n, _ in p[0]) >= 8192]
+  small = [p for p in ps if sum(n for _, n, _ in p[0]) < 8192]
   nchunk = max(1, cfg.workers * 4)
   items = big + [small[i::nchunk] for i in range(nchunk) if small[i::nchunk]]
   for r in pmap(_pile_worker, items, cfg.workers, seed=cfg.seed):
@@ -537,6 +709,40 @@ def configs (quick):
         # points; the default schedule and the rotated one
         cs.append(dict(base, bound=0, real_pinger=True, threads=2, calls=1025, max_points=400000))
         cs.append(dict(base, bound=0, real_pinger=True, threads=2, calls=1025, max_points=400000, rotate=True))
+      # ---- configurations and granularities beyond the above (each a dimension of its own, crossed with every scenario
+      # and both hubs) ----
+      b12 = 1 if quick else 2
+      # the select hub's other back-end: the library's EpollSelect over a modelled epoll object
+      cs.append(dict(base, bound=b12, epoll=True))
+      if name == "calllater":
+        cs.append(dict(base, bound=1, epoll=True, real_pinger=True, calls=3))
+        if threaded: cs.append(dict(scen="sync", threaded=True, funcs=NARROW["sync"], bound=1, epoll=True, via_core=True))
+      # scheduling points below the line: every read / write of a field of the shared objects inside the hand-off
+      # functions
+      cs.append(dict(base, bound=b12, fields=FIELDS[name]))
+      if not quick or name == "calllater": cs.append(dict(base, bound=1, fields=FIELDS[name], rotate="reverse"))
+      # the scheduler is not the process-wide default scheduler (another running scheduler is)
+      cs.append(dict(base, bound=1, nondefault=True))
+      if name == "idle": cs.append(dict(base, bound=1, nondefault=True, via="schedule"))
+      # a third default-successor policy (the thread started last goes first: the foreign threads before the scheduler,
+      # the scheduler before the hub), bound 2 like the rotating one
+      if name in ("idle", "sync") or not quick:
+        cs.append(dict(base, bound=2, rotate="reverse"))
+      else:
+        cs.append(dict(base, bound=1, rotate="reverse"))
+      if name == "calllater":
+        # every hand-over a first one (the lazily created call-later task): 2 threads x 1 call, so that bound 2 is
+        # affordable under every policy (thorough: 3 threads)
+        for pol in (False, True, "reverse"):
+          if pol is False and quick: continue       # (contained in the 2 x 2 configuration above, to the same bound)
+          cs.append(dict(base, bound=2, calls=1, rotate=pol))
+          if not quick: cs.append(dict(base, bound=2, calls=1, threads=3, rotate=pol))
+        # other users of the hub next to the call-later task, under each policy
+        # (threaded hub: the hub thread's own code - _select, registerSelect, _return - line by line as well)
+        for cot in ("select", "sleep", "io"):
+          for pol in (False, True, "reverse"):
+            cs.append(dict(base, bound=1, cotask=cot, rotate=pol, funcs=NARROW[name] + (HUB_FUNCS if threaded else ())))
+            if not quick: cs.append(dict(base, bound=2, cotask=cot, rotate=pol))
       # every line of recoco.py as a scheduling point, one deviation
       cs.append(dict(base, funcs=None, bound=1))
       if not quick:
@@ -548,7 +754,6 @@ def configs (quick):
         #  per-instruction tracing across threads; see DESIGN.md 9.2)
         cs.append(dict(base, funcs=None, bound=2))
   if not quick:
-    cs.append(dict(scen="calllater", threaded=True, funcs=NARROW["calllater"], bound=2, threads=3, calls=1))
     cs.append(dict(scen="wake", threaded=True, funcs=NARROW["wake"], bound=2, threads=3))
   return cs
 
@@ -561,12 +766,16 @@ def run_one (cfgd, prefix):
 
 def cfg_name (c):
   return "%s/%s/%s%s%s%s" % (c["scen"], "threaded-hub" if c["threaded"] else "inline-hub",
-                             "all-lines" if c["funcs"] is None else "handoff-funcs",
-                             "/opcode" if c.get("opcode") else "", "/rotate" if c.get("rotate") else "",
+                             "all-lines" if c["funcs"] is None else "handoff-funcs+hub-lines" if "SelectHub._select" in c["funcs"] else "handoff-funcs",
+                             "/opcode" if c.get("opcode") else "", "/reverse" if c.get("rotate") == "reverse" else "/rotate" if c.get("rotate") else "",
                              ("/via-schedule" if c.get("via") else "") + ("/reyield" if c.get("reyield") else "")
                              + ("/real-pinger" if c.get("real_pinger") else "") + ("/raiser-" + c["raiser"] if c.get("raiser") else "")
                              + ("/via-core" if c.get("via_core") else "") + (("/calls%d" % c["calls"] if c.get("threads", 2) == 1 else "/%d-threads-calls%d" % (c.get("threads", 2), c["calls"])) if c.get("calls", 0) > 3 else "")
-                             + ("/failing-tasks" if c.get("bad") else "") + ("/2-foreign-threads" if c.get("scen") == "sync" and c.get("threads", 1) > 1 else ""))
+                             + ("/failing-tasks" if c.get("bad") else "") + ("/2-foreign-threads" if c.get("scen") == "sync" and c.get("threads", 1) > 1 else "")
+                             + ("/field-points" if c.get("fields") else "") + ("/epoll" if c.get("epoll") else "")
+                             + ("/cotask-" + c["cotask"] if c.get("cotask") else "") + ("/non-default-scheduler" if c.get("nondefault") else "")
+                             + ("/%d-threads-1-call" % c.get("threads", 2) if c.get("calls") == 1 else "")
+                             + ("/3-threads" if c.get("scen") == "wake" and c.get("threads", 2) == 3 else ""))
 
 
 def _worker (item):
@@ -582,7 +791,10 @@ def _worker (item):
     rep.extra[kk] = rep.extra.get(kk, 0) + 1
     rep.outcome((cfgd["scen"], hub, bad and bad[0], out))
     if bad:
-      rep.violation("%s:%s:%s" % (PID, bad[0], hub), "%s [%s]" % (bad[1], cfg_name(cfgd)),
+      # (the configuration dimensions that are a different piece of the library - the epoll back-end - or a different
+      #  way of setting it up - a scheduler that is not the default one - are part of the key)
+      rep.violation("%s:%s:%s%s%s" % (PID, bad[0], hub, ":epoll" if cfgd.get("epoll") else "", ":non-default-scheduler" if cfgd.get("nondefault") else ""),
+                    "%s [%s]" % (bad[1], cfg_name(cfgd)),
                     dict(config=dict(cfgd, funcs=None if cfgd["funcs"] is None else list(cfgd["funcs"])), choices=ctx.choices()))
     if rep.evaluations == 1 and prefixes and (prefixes[0] or cfgd.get("calls", 0) > 3):
       rep.sample(dict(scenario=cfg_name(cfgd), deviations=[(i, t[2], t[0]) for i, t in enumerate(ctx.trace) if t[0]],
@@ -648,21 +860,33 @@ def run (cfg):
               "idle/wake-up handshake (new tasks via fast start and via schedule), each with threaded and inline select hub; "
               "scheduling points = line events in the hand-off functions (deviation bound 2; thorough 3) or in all "
               "of recoco.py (bound 1; thorough 2) plus every Lock/Event/Queue/select/pinger operation; every schedule within the bound "
-              "is executed.  Piles of pending work on the library's real pipe pinger (modelled pipes of 65536 bytes), the scheduler "
+              "is executed.  Further dimensions, each crossed with every scenario and both hubs (bound 1; thorough 2): the select hub's epoll back-end "
+              "(the library's EpollSelect over a modelled select.epoll object with kernel-like register/modify/unregister errors; also via POXCore and on the real pipe pinger); "
+              "scheduling points below the line - every read and write of a field of the Scheduler / SelectHub / CallLaterTask / ScheduleTask / SyncTask objects inside the "
+              "hand-off functions, before and after the access; a scheduler that is not the default scheduler (a second, running one is); three default-successor "
+              "policies at forced switches (lowest thread id, round robin, highest id); call-later with every hand-over a first one (2 threads x 1 call, bound 2 under "
+              "each policy; thorough 3 threads); call-later next to another user of the hub (a task selecting on a descriptor that stays silent / that a foreign thread "
+              "makes readable before each hand-over / a task sleeping on a timer) under each policy, the hub thread's own functions traced line by line.  "
+              "Piles of pending work on the library's real pipe pinger (modelled pipes of 65536 bytes), the scheduler "
               "stepped by hand until it would sleep: one pile of every size 1,2,3 and 2^k-1,2^k,2^k+1 (k=2..16, <= 65536) of call-later "
               "functions handed over by a foreign thread / by a cooperative task in one slice / by a handed-over function from inside the "
               "drain loop, and (<= 4097) of new tasks started / blocked tasks woken with schedule() by a foreign thread; two piles "
               "(sizes 1,1023,1024,1025,2049, piles of tasks 1,1024,1025; thorough 10 resp. 6 sizes, all source pairs, three piles) with the "
               "second arriving after 0..8 scheduler steps or at rest; the same piles of 1023..4097 (thorough ..16385) calls from one and 1025 from each of two controlled foreign "
-              "threads with both hubs (default schedule).  "
+              "threads with both hubs (default schedule); single piles (1,2,1023,1024,1025,4097; thorough the lattice to 4097) of every source and pairs (1|1025) x phases "
+              "on the epoll back-end.  "
               "Cooperative Lock against an owner-less reference lock: every `owned' program of 2-3 tasks x acquire/try-acquire/release/yield "
               "scripts on 1-2 locks (a script releases only what it took), and every free-form program (scripts ending in a lock operation) - any task may release, locks created "
               "free or held (Lock(locked=True)), acquire/release also done inside a task_function helper (another task object): "
               "2 tasks x scripts <= 3 ops and 3 tasks x scripts <= 2 ops on one lock, 2 tasks x scripts <= 2 ops on two locks - each with every "
-              "waiter-pop choice.  distinct = (scenario, hub, verdict, observation)")
+              "waiter-pop choice; owned programs of 2 tasks (scripts <= 3 ops) and free-form ones (<= 2 ops) with every non-empty subset of the task objects false "
+              "in a boolean context (__len__ == 0).  distinct = (scenario, hub, verdict, observation)")
   rep.bound = dict(configs=len(cs), scheduling_points_default_schedule=pts,
                    pile_sizes=pile_lattice(PIPE_CAP), pile_plans=rep.extra.get("pile_plans"), lock_programs=rep.extra.get("lock_programs"))
   rep.assumptions = ["C-level atomicity of deque/dict/list operations (CPython GIL)",
+                     "granularity: line events plus (field-points configurations) accesses to the shared objects' fields; a switch between two "
+                     "instructions that touch only locals is not explored (it commutes with the other threads' steps)",
+                     "epoll model: level-triggered, readable descriptors only (the wake-up pipes), EEXIST / ENOENT on bad register / modify / unregister",
                      "modelled Lock/Event/Queue/select/pinger semantics (mc/thr.py); polling timeouts are never fired while work is pending",
                      "no partial-order reduction: counts are schedules, not equivalence classes",
                      "piles: a pipe holds 65536 bytes and a read returns min(asked, pending) bytes; the work arrives while the scheduler "
@@ -679,8 +903,8 @@ def replay (cfg, data):
     return c07_locks.replay_locks(data)
   if data.get("pile"):
     plan = tuple(tuple(b) for b in data["plan"])
-    bad, obs = s_pile(plan)
-    return bool(bad), "%s %r\n=> %r (functions run, pipe reads: %r)" % (pile_name(plan), plan, bad, obs)
+    bad, obs = s_pile(plan, bool(data.get("epoll")))
+    return bool(bad), "%s %r\n=> %r (functions run, pipe reads: %r)" % (pile_name(plan, data.get("epoll")), plan, bad, obs)
   c = dict(data["config"])
   if c.get("funcs") is not None: c["funcs"] = tuple(c["funcs"])
   gc.disable()
